@@ -18,14 +18,14 @@ CHECKS = {
     ),
     "C02": dict(
         text="Chunk positions and generated-end information of every recorded stream (columns x final-source, the latter obtained through a "
-             "spy child, no hook) are compared by TLC with the position table of the reassembled text (Text.tla).",
+             "spy child, no hook) are compared by TLC with the position table of the reassembled text (Text.tla). The ReplaceSource offset machine is also modelled branch for branch (ReplaceM), model-checked against Splice / the position table, and every recorded stream of a tree without user children is compared with the composed tree model TreeM / TreeC (MODEL-DRIFT only).",
         note=COMMON_NOTE + " Domain restricted to ASCII/consistent maps by the TLA+ predicate AsciiConsistent.",
         technique="TLA+ position oracle + TLC trace validation",
     ),
     "C03": dict(
         text="For every tree, the SourceMap returned by map() is decoded by the specification's VLQ decoder and resolved at every byte "
              "position (per line for columns=false); TLC compares it with the attribution of the covering chunk of the normal-mode stream "
-             "recorded from the same object, both read by value through their own tables (Attr.tla).",
+             "recorded from the same object, both read by value through their own tables (Attr.tla). MC_K1 shows the known finding K1 at design level (ReplaceM over the CachedSource replay of EncM + SplitM differs from the first pass in the original column only).",
         note=COMMON_NOTE + " map() is compared with the most recent stream of the same object; one known finding (K1: ReplaceSource over CachedSource).",
         technique="TLA+ attribution oracle (decode + resolve) + TLC trace validation",
     ),
@@ -67,7 +67,7 @@ CHECKS = {
         text="Call histories over a CachedSource, a clone sharing its cache and a parent ConcatSource (final-source cache key) are replayed; the "
              "object machine tracks which cache keys are filled and how (by map / by stream), and TLC compares every answer (text, size, end, "
              "per-position attribution, hash stability) with the answers recorded from the uncached wrapped tree. All histories up to the "
-             "tier's length over six wrapped trees are enumerated by TLC.",
+             "tier's length over six wrapped trees are enumerated by TLC. TreeC, the cache-aware composition of the implementation-shaped models, threads the state of every cache through the calls of a program: MC_TreeC checks C10 on it for all histories of up to 3 calls (5,550 cases), and every recorded map / stream of a cached tree is compared with it (MODEL-DRIFT only).",
         note=COMMON_NOTE + " Wrapped trees with a CachedSource beneath a ReplaceSource are outside the comparison (their own answers depend on history, known finding K1).",
         technique="TLA+ object machine (cache state) + transparency predicate + TLC trace validation of enumerated histories",
     ),
@@ -97,7 +97,7 @@ CHECKS = {
     ),
     "C16": dict(
         text="Pairs of rope expressions (nested construction programs) enumerated by TLC are evaluated on the real Rope; TLC compares every "
-             "unary observer, both binary observers in both directions and get_byte_slice for every range with the flat-string definitions of Rope.tla.",
+             "unary observer, both binary observers in both directions and get_byte_slice for every range with the flat-string definitions of Rope.tla. RopeM (the piece representation: constructors, byte_slice, lines) is model-checked against the flat-string meaning and the representation invariant, and compared with the real representation through the hook verif_pieces (MODEL-DRIFT only).",
         note=COMMON_NOTE,
         technique="TLA+ flat-string semantics + TLC trace validation, exhaustive small scope of construction programs",
     ),
@@ -109,7 +109,7 @@ CHECKS = {
              "one-call threads (and sampled 3-thread behaviours) as schedules that a deterministic scheduler replays on the real crate, "
              "(c) validates the recorded runs: each call's answer equals the sequential answer of an uncached twin, the identity of the "
              "map stored per option set never changes, no deadlock. A broken variant of the model (insert overwrites) must violate "
-             "WriteOnce in every run (non-vacuity).",
+             "WriteOnce in every run (non-vacuity). The index mutex of ReplaceSource is part of the model; refusal probes release threads the model says must wait (for a shard lock or the index mutex) and the monitors must still hold.",
         note=COMMON_NOTE + " Interleavings are at the granularity of the hook points (feature verif); the scheduler serialises threads, so weak-memory effects are outside. Schedules that the code does not follow are reported as MODEL-DRIFT, never as a violation.",
         technique="TLA+ concurrency model: TLC model checking + TLC-generated schedules replayed deterministically + TLC trace validation",
     ),
@@ -127,7 +127,7 @@ CHECKS = {
              "on grammar strings spelled by the specification (redundant continuation digits, empty segments, backward columns) and on all "
              "single-field deltas of the tier's bound; TLC compares with the v3 format as specified in Vlq.tla (decoder, digit emission) and "
              "checks resolution equivalence, subsequence-of-input and re-encode stability; the line-only encoder is reached through "
-             "map(columns=false) of a one-child ConcatSource over a scripted child.",
+             "map(columns=false) of a one-child ConcatSource over a scripted child. EncM (both encoders) and DecM (the byte-level decoder, junk behaviour included) are model-checked against the format and bound to the recorded outputs (MODEL-DRIFT only).",
         note=COMMON_NOTE + " Values capped at 2^30 (the property's bound and TLC's 32-bit integers).",
         technique="TLA+ specification of the v3 VLQ format + TLC trace validation, exhaustive small scopes",
     ),
@@ -138,7 +138,7 @@ CHECKS = {
     ),
     "C05": dict(
         text="ReplaceSource histories (mutators interleaved with every observer) are replayed; TLC evolves the replacement list as the object "
-             "machine's state and compares each observer's answer with Splice (stable order by start,end,enforce,call order).",
+             "machine's state and compares each observer's answer with Splice (stable order by start,end,enforce,call order). ReplaceM (streaming of the sorted replacements) is model-checked against Splice on up to 135,845 inputs.",
         note=COMMON_NOTE,
         technique="TLA+ object machine with reference splice + TLC trace validation of histories",
     ),
